@@ -79,6 +79,15 @@ def played_paths(ctx, nprog):
         NS(src="@tweezer\ndef main(x: float, n: int):\n    g = grid.from_positions([x], [0.0, 1.0, 4.0])\n    action.set_loc(g)\n    action.turn_on(action.ALL, action.ALL)\n"
                "    action.move(grid.shift(g, 1.0, 0.5))\n    action.turn_off([0], [1])\n    action.move(grid.shift(g, 1.0, 2.5))\n    action.turn_on([0], [1, 2])\n",
            params=["x", "n"], arg_tuples=[(1.0, 2)]),
+        # waypoints that are VIEWS of a filled grid next to waypoints that are not (the shifted view, another view)
+        NS(src="@tweezer\ndef main(x: float, n: int):\n    z = grid.from_positions([x, x + 2.0, x + 4.0], [0.0, 1.0])\n    f = filled.vacate(z, [(0, 0)])\n    v = grid.sub_grid(f, [0, 1], [0, 1])\n"
+               "    action.set_loc(v)\n    action.turn_on(action.ALL, action.ALL)\n    action.move(grid.shift(v, 1.0, 0.5))\n    action.move(grid.sub_grid(f, [1, 2], [0, 1]))\n    action.move(f[0:2, 0:2])\n"
+               "    action.turn_off([0], action.ALL)\n",
+           params=["x", "n"], arg_tuples=[(1.0, 2)]),
+        # an AOD grid with an EMPTY axis (the column list is computed and turns out empty): segments stay non-empty
+        NS(src="@tweezer\ndef main(x: float, n: int):\n    def col(i: int):\n        return x + 2.0 * i\n    g = grid.from_positions(ilist.map(col, ilist.range(n)), [0.0, 1.0])\n    action.set_loc(g)\n"
+               "    action.turn_on(action.ALL, [0])\n    action.move(grid.shift(g, 1.0, 0.5))\n    action.turn_off(action.ALL, [0])\n    action.move(grid.shift(g, 0.0, 2.0))\n",
+           params=["x", "n"], arg_tuples=[(1.0, 0), (0.5, 2)]),
         # no switch at all / only a set_loc
         NS(src="@tweezer\ndef main(x: float, n: int):\n    g = grid.from_positions([x], [0.0])\n    action.set_loc(g)\n    action.move(grid.shift(g, 1.0, 0.5))\n",
            params=["x", "n"], arg_tuples=[(1.0, 0)]),
